@@ -457,6 +457,46 @@ func C12(tier string) int {
 		}
 		c.Close()
 	}
+	// The same over the real transport: four real instances with the real gRPC API server and the real gRPC sender on
+	// loopback addresses; every (n, t) a cluster of four admits, started on every instance.
+	overNet := 0
+	{
+		nc, err := rig.NewNetCluster([]uint64{1, 2, 3, 4})
+		if err != nil {
+			run.HarnessErr = err
+			return run.Finish()
+		}
+		view := nc.View()
+		for _, initiator := range nc.IDs {
+			for _, nt := range [][2]uint32{{2, 2}, {3, 2}, {3, 3}, {4, 3}, {4, 4}} {
+				overNet++
+				cells++
+				name := fmt.Sprintf("%s/net-%d-%d-%d", rig.DistWallet, initiator, nt[0], nt[1])
+				pk, parts, err := nc.GenerateParts(initiator, name, nt[1], nt[0])
+				rp := map[string]any{"check": "C12", "over_grpc": true, "initiator": initiator, "n": nt[0], "t": nt[1]}
+				if err != nil {
+					run.Violate(fmt.Sprintf("over-grpc-refused:n=%d:t=%d", nt[0], nt[1]),
+						fmt.Sprintf("four instances over the real gRPC transport: a generation with n=%d t=%d started on instance %d failed: %v", nt[0], nt[1], initiator, err), rp)
+					refusals++
+					continue
+				}
+				successes++
+				var probs []string
+				if len(parts) != int(nt[0]) {
+					probs = append(probs, fmt.Sprintf("%d participants were reported for a request for %d", len(parts), nt[0]))
+				}
+				if h := holders(view, name); len(h) != int(nt[0]) {
+					probs = append(probs, fmt.Sprintf("instances %v hold the account although %d participants were requested", h, nt[0]))
+				}
+				probs = append(probs, verifyGeneration(view, name, pk, parts, nt[1], 4)...)
+				for _, pr := range probs {
+					run.Violate(fmt.Sprintf("over-grpc:n=%d:t=%d:%s", nt[0], nt[1], firstWords(pr, 4)),
+						fmt.Sprintf("four instances over the real gRPC transport, generation n=%d t=%d started on instance %d: %s", nt[0], nt[1], initiator, pr), rp)
+				}
+			}
+		}
+		nc.Close()
+	}
 	// More configured peers than requested participants: exactly the requested number of instances takes part and holds
 	// the account.
 	larger := 0
@@ -523,7 +563,7 @@ func C12(tier string) int {
 	run.Coverage = map[string]any{
 		"evaluations":                       cells,
 		"distinct_nontrivial":               len(perNT),
-		"rule":                              "clusters of n real instances wired through their real receiver handlers (messages marshalled and unmarshalled); after every successful generation each participant must at once sign with the new account addressed by name and addressed by its share public key, and list it; grid: n in 2..max, every t in 0..n+1, identifier sets (small, 10^6+i, 2^64-i, mixed), every initiator; for a valid t every order of participants returned by the peer selection and every commit completion order (all n! for small n, rotations+reversal above), and one tampered commit reply per participant and kind; oracle on success: every participant holds the account with the returned composite key, same vector/threshold/participants, share consistent with the vector, immediate signing and listing through its own services, every t-subset of partial signatures recovers a valid composite signature and no (t-1)-subset does; plus generations in a cluster of 5 configured instances for every n < 5 and every t incl. thresholds above n and without majority (exactly n participants reported, exactly n holders; impossible thresholds refused); plus second generations of a name the participants already hold, started on a participant and on an instance outside the participant set: a reported success is judged by the same oracle, a refusal must leave the first account intact; distinct = (n,t) cells with at least one successful generation",
+		"rule":                              "clusters of n real instances wired through their real receiver handlers (messages marshalled and unmarshalled); after every successful generation each participant must at once sign with the new account addressed by name and addressed by its share public key, and list it; grid: n in 2..max, every t in 0..n+1, identifier sets (small, 10^6+i, 2^64-i, mixed), every initiator; for a valid t every order of participants returned by the peer selection and every commit completion order (all n! for small n, rotations+reversal above), and one tampered commit reply per participant and kind; oracle on success: every participant holds the account with the returned composite key, same vector/threshold/participants, share consistent with the vector, immediate signing and listing through its own services, every t-subset of partial signatures recovers a valid composite signature and no (t-1)-subset does; plus 20 generations on four instances that talk over the real gRPC transport (real API servers, real sender), judged by the same oracle; plus generations in a cluster of 5 configured instances for every n < 5 and every t incl. thresholds above n and without majority (exactly n participants reported, exactly n holders; impossible thresholds refused); plus second generations of a name the participants already hold, started on a participant and on an instance outside the participant set: a reported success is judged by the same oracle, a refusal must leave the first account intact; distinct = (n,t) cells with at least one successful generation",
 		"samples":                           samples.List(),
 		"exhaustive":                        !capped && len(vacuous) == 0,
 		"max_n":                             maxN,
@@ -532,9 +572,10 @@ func C12(tier string) int {
 		"successes_per_n_t":                 perNT,
 		"second_generations_of_a_held_name": reuse,
 		"generations_in_a_larger_cluster":   larger,
+		"generations_over_the_real_grpc_transport": overNet,
 		"vacuous_cells":                     vacuous,
 	}
-	run.Assumptions = []string{"services/sender/grpc and TLS between peers are not exercised (C19 covers the server side)", "the BLS library is correct"}
+	run.Assumptions = []string{"the grid, the tampering and the ordering cases run on the in-memory cluster (messages marshalled and handed to the real receiver handlers); services/sender/grpc and TLS between peers are exercised by the 20 generations over the real transport only", "the BLS library is correct"}
 	return run.Finish()
 }
 
